@@ -152,6 +152,7 @@ type stream struct {
 	closed  bool   // no further writes go to this stream
 	tainted bool   // a corrupted (truncated/bit-flipped) frame of this stream reached the receiver
 	maxLen  int
+	born    int64 // clock reading (ns) when the sender was created
 }
 
 // lookup finds the valid sent packet an emitted image is byte-identical to.
